@@ -692,7 +692,7 @@ func c17ClassifyDeath(stderr string, err error) (string, string) {
 // ---------------------------------------------------------------------------------------------
 // generators
 
-func c17Rep(n int, body ...c17Stmt) c17Stmt { return c17Stmt{Kind: "repeat", N: n, Body: body} }
+func c17Rep(n int, body ...c17Stmt) c17Stmt  { return c17Stmt{Kind: "repeat", N: n, Body: body} }
 func c17Push(ch, v int) c17Stmt              { return c17Stmt{Kind: "push", Ch: ch, V: v} }
 func c17Pop(ch int) c17Stmt                  { return c17Stmt{Kind: "pop", Ch: ch} }
 func c17Incr(k int) c17Stmt                  { return c17Stmt{Kind: "incr", K: k} }
@@ -912,6 +912,10 @@ func c17GenMutex(rng *lib.Rng, maxOps int, kinds []string) *c17Prog {
 		p.Routines = append(p.Routines, ss)
 	}
 	if rng.Chance(30) {
+		// the main thread takes part (at most 8 threads in all)
+		if len(p.Routines) == 8 {
+			p.Routines = p.Routines[:7]
+		}
 		p.Main = []c17Stmt{c17Rep(1+rng.Intn(maxOps), c17Section(rng, p, rng.Intn(len(p.Kinds)), false))}
 	}
 	return p
@@ -1537,7 +1541,7 @@ func c17RaceCells() []*c17Case {
 func c17Generate(c *lib.Ctx) []*c17Case {
 	rng := c.Rng
 	maxOps := c.Scale(60, 200)
-	n := c.Scale(250, 700)
+	n := c.Scale(600, 1500)
 	procsAll := []int{1, 2, 4, 16}
 	var cases []*c17Case
 	listedLet := c.Findings.Listed("C17", "cell=counter-let ") || c.Findings.Listed("C17", "cell=burst-let ")
@@ -1743,7 +1747,7 @@ func runC17(c *lib.Ctx) {
 			gen := c17Generate(c)
 			c.Rng = saved
 			for i, cs := range gen {
-				if i >= 200 {
+				if i >= 300 {
 					break
 				}
 				rc := *cs
@@ -1788,7 +1792,7 @@ func runC17(c *lib.Ctx) {
 	}
 	wg.Wait()
 
-	validated := 0
+	validated, sampleNo := 0, 0
 	c.Ev.Coverage["skipped_after_hangs"] = int(skipped.Load())
 	for _, r := range results {
 		if r.d < 0 {
@@ -1816,15 +1820,17 @@ func runC17(c *lib.Ctx) {
 		if len(r.vs) == 0 {
 			validated++
 		}
-		c.Ev.Sample(map[string]any{"family": p.Family, "shape": p.Shape, "gomaxprocs": r.j.procs, "cell": r.j.cs.Cell,
-			"source": c17Clip(p.source(false), 700), "verdicts": len(r.vs), "wall_ms": r.d.Milliseconds()})
+		if sampleNo++; sampleNo%101 == 1 || len(r.vs) > 0 {
+			c.Ev.Sample(map[string]any{"family": p.Family, "shape": p.Shape, "gomaxprocs": r.j.procs, "cell": r.j.cs.Cell,
+				"source": c17Clip(p.source(false), 700), "verdicts": len(r.vs), "wall_ms": r.d.Milliseconds()})
+		}
 		for _, v := range r.vs {
 			c.Ev.Count("disagreements_checked", 1)
 			c.Report(v.Sig, r.j.cs.Cell != "", map[string]any{
 				"program": p, "cell": r.j.cs.Cell, "gomaxprocs": r.j.procs, "race": r.j.cs.Race,
 				"input": c17Clip(p.source(false), 6000), "observed": c17Clip(v.Observed, 3000), "expected": v.Expected,
 				"expected_from": "model:conc checkers / sequential run",
-				"relies_on": []string{"SlipVerif.Conc.exec_fifoOk", "SlipVerif.Conc.exec_mutexOk", "SlipVerif.Conc.exec_counterOk", "SlipVerif.Conc.no_lost_update"},
+				"relies_on":     []string{"SlipVerif.Conc.exec_fifoOk", "SlipVerif.Conc.exec_mutexOk", "SlipVerif.Conc.exec_counterOk", "SlipVerif.Conc.no_lost_update"},
 			})
 		}
 	}
